@@ -711,11 +711,15 @@ class Field(
                 # constructs.
                 keys = (None,)
 
-            identities = ()
-            filter_kwargs = {
-                "filter_by_key": keys,
-                "todict": filter_kwargs.pop("todict", False),
-            }
+            # Apply any other filters as well as the restriction to
+            # the keys found. The keys are filtered last so that they
+            # combine with, rather than replace, a 'filter_by_key'
+            # filter provided by the caller.
+            todict = filter_kwargs.pop("todict", False)
+            out = self._filter_interface(
+                ("cell_method",), "cell_method", (), **filter_kwargs
+            )
+            return out.filter_by_key(*keys, todict=todict)
 
         return self._filter_interface(
             ("cell_method",), "cell_method", identities, **filter_kwargs
